@@ -62,7 +62,8 @@ def generators():
     import gen_ctrl
     import gen_serverloop
     import gen_ctxwork
-    gens = {'CtxWork': gen_ctxwork.generate, 'ServerLoop': gen_serverloop.generate, 'Ctrl': gen_ctrl.generate, 'Restart': gen_restart.generate, 'Forwarder': gen_forwarder.generate, 'Transport': gen_transport.generate, 'Shutdown': gen_shutdown.generate, 'Create': gen_create.generate, 'Handshake': gen_handshake.generate, 'Framing': gen_framing.generate, 'Registry': gen_registry.generate, 'Persist': gen_persist.generate,
+    import gen_remotelive
+    gens = {'RemoteLive': gen_remotelive.generate, 'CtxWork': gen_ctxwork.generate, 'ServerLoop': gen_serverloop.generate, 'Ctrl': gen_ctrl.generate, 'Restart': gen_restart.generate, 'Forwarder': gen_forwarder.generate, 'Transport': gen_transport.generate, 'Shutdown': gen_shutdown.generate, 'Create': gen_create.generate, 'Handshake': gen_handshake.generate, 'Framing': gen_framing.generate, 'Registry': gen_registry.generate, 'Persist': gen_persist.generate,
             'MroScan': gen_mro.generate, 'Skel': gen_skel.generate}
     try:
         import gen_units
